@@ -25,7 +25,10 @@ def main():
         if a.k not in name or not os.path.exists(os.path.join(d, "patch.diff")):
             continue
         meta = json.load(open(os.path.join(d, "meta.json")))
-        props = a.props.split(",") if a.props else [meta["property"]] + meta.get("also", [])
+        # "decided_by": the seeded change turned out to violate another
+        # property than the one it was written for (see meta["judgement"])
+        props = a.props.split(",") if a.props else \
+            meta.get("decided_by", [meta["property"]])
         root = tempfile.mkdtemp(prefix="vfseed-", dir=base)
         try:
             shutil.copytree("/repo/biom", os.path.join(root, "biom"),
